@@ -356,3 +356,6 @@ SUBCHECKS = [
 from ..core import env_variant  # noqa: E402
 
 SUBCHECKS.append(env_variant(__name__, next(sc for sc in SUBCHECKS if sc.name == "throw")))
+from ..core import ENVS_CONSTANTS  # noqa: E402
+
+SUBCHECKS.append(env_variant(__name__, next(sc for sc in SUBCHECKS if sc.name == "throw"), envs=ENVS_CONSTANTS, quick=1, thorough=20))
